@@ -11,7 +11,7 @@ from props.C15 import Machine
 REQUIRED_THEOREMS = ['Usid.C03.batches_partition', 'Usid.C03.batches_disjoint_ordered', 'Usid.C03.exactly_once',
                      'Usid.C03.final_state', 'Usid.C03.all_complete', 'Usid.C03.batch_irrelevant',
                      'Usid.C03.cores_irrelevant']
-RULE = ('random (N, M, completion mask, batch limit, cores, lazy, same-file/separate target); real compute() of a '
+RULE = ('random (N, M, completion mask incl. N up to 1200 with < 0.5 % pending, batch limit, cores, lazy, same-file/separate target); real compute() of a '
         'Process subclass whose map function logs every call through an O_APPEND file; non-trivial = a pending '
         'position exists and (several batches or non-contiguous mask or multi-core)')
 TRUSTED = ['joblib worker scheduling is not modelled: "identical results in identical order" for cores > 1 rests on '
@@ -40,10 +40,15 @@ def generate(seed, tier):
     for i in range(n_cases):
         rng = derived_rng(seed, 'C03', i)
         big = (i % 12 == 11)
-        n = rng.randint(90, 200) if big else rng.randint(1, 40)
+        huge = (i % 12 == 5)            # many positions, very few pending: resumption must still find them
+        n = rng.randint(90, 200) if big else (rng.randint(201, 1200) if huge else rng.randint(1, 40))
         mask, kind = gen_mask(rng, n)
+        if huge:
+            mask, kind = [1] * n, 'few-left'
+            for _ in range(rng.randint(1, max(1, n // 250))):
+                mask[rng.randrange(n)] = 0
         cases.append({'n': n, 'm': rng.randint(1, 6), 'mask': mask,
-                      'batch': rng.randint(85, n + 3) if big else rng.randint(1, n + 3),
+                      'batch': rng.randint(85, n + 3) if (big or huge) else rng.randint(1, n + 3),
                       'cores': rng.choice([2, 4, 16]) if big else rng.choice([1, 1, 2, 4, None]),
                       'lazy': rng.random() < 0.3, 'separate': rng.random() < 0.3,
                       'fresh': kind == 'zero' and rng.random() < 0.6,
